@@ -75,10 +75,10 @@ class ABCCBMPropertyGraph(ABCPropertyGraph):
         :return:
         """
         assert graph_id is not None
+        # look the snapshot up first: an unknown (or already used) id must not cost us the CBM
+        cbm_temp = self.importer.cast_graph(graph_id=graph_id)
         # delete self
         self.delete_graph()
-        # clone other graph into self
-        cbm_temp = self.importer.cast_graph(graph_id=graph_id)
         # renumber cbm temp to be the original graph id
         cbm_temp.update_nodes_property(prop_name=ABCPropertyGraphConstants.GRAPH_ID,
                                        prop_val=self.graph_id)
